@@ -1,4 +1,5 @@
 """C05 -- on every path, compiled control transfers stay in the script and frames balance."""
+import re
 import time
 
 import z3
@@ -34,6 +35,11 @@ def static_checks(prog):
     loader.load(prog)
     image = loader.get_code()
     routines = loader.get_routines()
+    # the image is the same one however often it is read (listings and checkers read it before the VM does)
+    again = loader.get_code()
+    if [(i.op_code, i.param0, i.param1) for i in again] != [(i.op_code, i.param0, i.param1) for i in image]:
+        issues.append('a second read of the loaded image differs from the first (%d instructions, then %d): the routine table no longer fits it'
+                      % (len(image), len(again)))
     n = len(image)
     seg = segments(image)
     pos_pre = {id(inst): i for i, inst in enumerate(prog)}
@@ -54,6 +60,9 @@ def static_checks(prog):
                 issues.append('jump at %d has no offset (%r)' % (j, inst.param1))
                 continue
             tj = j + inst.param1
+            if inst.param1 == 0 and inst.param0 is JumpCondition.ALWAYS:
+                issues.append('jump at %d goes to itself' % j)
+                continue
             if not (0 <= tj <= n):
                 issues.append('jump at %d leaves the program (target %d of %d)' % (j, tj, n))
                 continue
@@ -317,13 +326,50 @@ def duplicates_worker(args):
     return res
 
 
+# ---- leftovers of a rejected compile: whatever the same compiler accepts next still has all its jumps inside ----
+UNFINISHED = [
+    'repeat 2 begin hue nosuch end', 'repeat all as l begin repeat 2 begin hue nosuch', 'define r9 begin repeat while {1 > 0} begin hue nosuch end end',
+    'if {1 > 0} begin repeat with i from 1 to 2 begin hue nosuch', 'set "M" begin repeat 2 begin hue nosuch', 'define r9 with a begin if {a > 0} begin hue nosuch',
+]
+AFTERWARDS = ['break', 'on all break off all', 'if {1 > 0} break on all', 'define r begin break end r', 'repeat 2 begin on all end break',
+              'define r with a begin if {a > 0} break return a end print [r 1]', 'repeat 2 begin if {1 > 0} break end on all']
+
+
+def leftovers_worker(args):
+    from bardolph.parser.parse import Parser
+    res = report.WorkResult('compiles after a rejected compile')
+    world.start_function_trace()
+    res.sites.add('leftovers')
+    for first in UNFINISHED:
+        for second in AFTERWARDS:
+            res.nontrivial += 1
+            world.configure()
+            p = Parser()
+            if p.parse(first):
+                res.error = 'the unfinished script %r is accepted' % first
+                return res
+            res.reached.add('leftovers')
+            if not p.parse(second):
+                continue
+            fresh = Parser()
+            issues, _ = static_checks(p.get_program())
+            if issues:
+                res.violation('leftovers|%s' % re.sub(r'\d+', 'N', issues[0])[:60],
+                              'accepted after the rejected script %r (a fresh compiler %s it): %s\n  script: %s'
+                              % (first, 'also accepts' if fresh.parse(second) else 'rejects', '; '.join(issues[:3]), second),
+                              inputs={'first': first, 'script': second}, replayed=True)
+    res.functions = world.functions_seen()
+    return res
+
+
 def run(tier, seed):
     t0 = time.time()
     cases, n_def = build_cases(tier, seed)
     items = [{'case': c, 'timeout_ms': 4000, 'max_paths': 300 if tier == 'quick' else 2000,
               'budget_s': 12 if tier == 'quick' else 90} for c in cases]
     items.append({'duplicates': True})
-    results, skipped = report.run_pool(lambda a: duplicates_worker(a) if 'duplicates' in a else worker(a), items, budget_s=common.tier_budget(tier, 70, 900))
+    items.append({'leftovers': True})
+    results, skipped = report.run_pool(lambda a: duplicates_worker(a) if 'duplicates' in a else leftovers_worker(a) if 'leftovers' in a else worker(a), items, budget_s=common.tier_budget(tier, 70, 900))
     jumps = sum(r.extra.get('jumps', 0) for r in results)
     return report.finish(
         PROP, tier, seed, 'exploration', results, skipped,
